@@ -49,3 +49,23 @@ Example C14_example_shift :
                    [("ONE", ("u8", 1))] in
   arb_boundary d = Some (0, 15) /\ arb_int (the_lib d) d [15] = OOk (VI 15).
 Proof. vm_compute. auto. Qed.
+
+(* the side conditions of C14_surjective / C09_int hold for every declaration the macro
+   accepts: at most one bound per side, and (with derive(Arbitrary)) bound validators only *)
+From NV Require Import Macro.Parse Macro.Validate Lemmas.ArbAcceptedLemmas.
+
+Theorem C14_accepted_single_bounds :
+  forall (ft : features) (sd : sdecl) (d : decl) (tn : string) (t : int_ty) (vs : list validator),
+    macro_verdict ft sd = Accept d -> d_family d = FInt tn t -> d_validation d = Some (RVStandard vs) ->
+    single_bounds vs = true.
+Proof. exact accepted_single_bounds. Qed.
+Print Assumptions C14_accepted_single_bounds.
+
+Theorem C14_accepted_arbitrary_bounds_only :
+  forall (ft : features) (sd : sdecl) (d : decl) (tn : string) (t : int_ty) (vs : list validator),
+    macro_verdict ft sd = Accept d -> d_family d = FInt tn t -> d_validation d = Some (RVStandard vs) ->
+    has_trait TrArbitrary (d_traits d) = true ->
+    (forall v, In v vs -> match v with VGreater _ | VGreaterOrEqual _ | VLess _ | VLessOrEqual _ | VPredicate _ => True | _ => False end) ->
+    forallb is_bound_validator vs = true.
+Proof. exact accepted_arbitrary_bounds_only. Qed.
+Print Assumptions C14_accepted_arbitrary_bounds_only.
